@@ -2603,6 +2603,17 @@ impl Block {
             }
         }
 
+        // a placeholder is identified by the hash it stands for. that hash has to travel in the
+        // signature field, which is the only place generate_hash_for_signature() can recover it
+        // from once the lite block has been serialized.
+        for tx in pruned_txs.iter_mut() {
+            if tx.transaction_type == TransactionType::SPV {
+                let mut signature = [0; 64];
+                signature[..32].copy_from_slice(&tx.hash_for_signature.unwrap());
+                tx.signature = signature;
+            }
+        }
+
         // Create the block with pruned transactions
         let mut block = Block::new();
 
